@@ -5,7 +5,6 @@ import (
 	"go/constant"
 	"go/token"
 	"math/big"
-	"sort"
 	"strings"
 
 	"gcv/internal/an"
@@ -420,7 +419,7 @@ func checkC04(r *core.Run) {
 	}
 	// the block's flags are those of its height also on the reorganisation / re-apply paths (shared with C06)
 	c06FlagsAfterHeight(r, p, "R-C04-scripts")
-	c04TrustPerTx(r, p, ct)
+	c04TrustPerTx(r, p, ct, "R-C04-scripts")
 	c04SigopTable(r, p)
 	// the maturity test reads the coinbase flag and height of the spent record: both must survive a disconnect, so the
 	// undo record collected here has to carry every field of the spent record (rule shared with C06)
@@ -550,6 +549,30 @@ func checkC04(r *core.Run) {
 		r.Check(ok && chkOK, "R-C04-scripts", fmt.Sprintf("verify-args/%d", i), p.Pos(c.Pos()), "script, amount of the spent output, input index, transaction and block flags passed", "script verification is not given the spent output's script/amount, the input index, the transaction and the block's flags")
 	}
 	r.Check(len(vts) >= 1, "R-C04-scripts", "verify-called", p.Pos(ct.Pos()), "script verification present", "no script verification in the block-connection function")
+	// each verifier checks the input of the iteration that started it: what it reads from the spawning loop
+	// (input index, transaction) is handed over by value, not read from a variable the loop assigns again
+	{
+		waits := an.CallsTo(ct, false, "(*sync.WaitGroup).Wait")
+		n := 0
+		var bad []string
+		an.Instrs(ct, func(i ssa.Instruction) {
+			g, ok := i.(*ssa.Go)
+			if !ok {
+				return
+			}
+			mc, ok := g.Call.Value.(*ssa.MakeClosure)
+			if !ok {
+				return
+			}
+			w, _ := mc.Fn.(*ssa.Function)
+			if w == nil || len(an.CallsTo(w, true, "lib/script.VerifyTxScript")) == 0 {
+				return
+			}
+			n++
+			bad = append(bad, c11CapturedReassigned(p, g, w, waits)...)
+		})
+		r.Check(n >= 1 && len(bad) == 0, "R-C04-scripts", "verifier-sees-own-input", p.Pos(ct.Pos()), "the verifier goroutines get input index and transaction by value", "a script verifier reads a variable that the spawning loop assigns again before the join - it may check another input than its own, leaving one unchecked: "+strings.Join(bad, "; "))
+	}
 	g("R-C04-scripts", "failure-counter", "a non-zero script failure count is rejected", c04FailCounter(ct))
 	// the counter test is preceded by wg.Wait on every path
 	{
@@ -687,98 +710,18 @@ func checkC04(r *core.Run) {
 }
 
 // c04DeleteBatches: the outputs a block spends are removed from the set by worker goroutines that each get
-// a batch of the list of spent records. Every record must be in exactly one batch: a full batch is handed
-// over when the counter reaches width-1 (the record just appended is the width-th), it is the slice
-// [offs : offs+width], offs advances by width and the counter restarts; what is left (counter > 0) goes out
-// as [offs:]. A counter test of "== width" hands over width records when width+1 have accumulated and, when
-// the list ends there, never removes the last one - a later block can spend it again.
+// a batch of the list of spent records; the new records are inserted the same way.  Every record must be in
+// exactly one batch (see batchTiling: consecutive batches from 0 to the end of the list, the conditional
+// remainder justified by the loop invariant len(list) = position + counter).  A record that is in no batch
+// is never removed - a later block can spend it again.
 func c04DeleteBatches(r *core.Run, p *core.Program) {
 	const rule = "R-C04-refusal"
 	fn := p.Func("lib/utxo.(*UnspentDB).commit")
 	if fn == nil {
-		r.Fail(rule, "spent-records-all-deleted", "-", "commit not found")
+		r.Fail(rule, "batches/anchor", "-", "commit not found")
 		return
 	}
-	var probs []string
-	nFull, nRest := 0, 0
-	for _, b := range fn.Blocks {
-		for _, ins := range b.Instrs {
-			g, ok := ins.(*ssa.Go)
-			if !ok || len(g.Call.Args) != 1 {
-				continue
-			}
-			sl, ok := g.Call.Args[0].(*ssa.Slice)
-			if !ok || !strings.Contains(sl.X.Type().String(), "one_del_rec") {
-				continue
-			}
-			cs := an.DomConds(b)
-			if sl.High != nil {
-				// full batch: High = Low + W
-				hb, ok := sl.High.(*ssa.BinOp)
-				if !ok || hb.Op != token.ADD || hb.X != sl.Low {
-					probs = append(probs, "a batch is handed over as "+an.Expr(sl))
-					continue
-				}
-				w, isC := an.ConstOf(hb.Y)
-				if !isC {
-					probs = append(probs, "the batch width is not a constant")
-					continue
-				}
-				nFull++
-				okCnt := false
-				for _, dc := range cs {
-					cx, cy, rel, isB := dc.Cmp()
-					if !isB || rel != token.EQL {
-						continue
-					}
-					if k, isK := an.ConstOf(cy); isK {
-						if _, isPhi := cx.(*ssa.Phi); isPhi {
-							if k.Int64()+1 == w.Int64() {
-								okCnt = true
-							} else {
-								probs = append(probs, fmt.Sprintf("a batch of %d records is handed over when the counter equals %d (%d records have accumulated)", w.Int64(), k.Int64(), k.Int64()+1))
-								okCnt = true
-							}
-						}
-					}
-				}
-				if !okCnt {
-					probs = append(probs, "the full-batch hand-over is not controlled by a counter test")
-				}
-				// offs advances by the same width
-				adv := false
-				for _, x := range b.Instrs {
-					if a, ok := x.(*ssa.BinOp); ok && a.Op == token.ADD && a.X == sl.Low {
-						if k, isK := an.ConstOf(a.Y); isK && k.Int64() == w.Int64() {
-							adv = true
-						}
-					}
-				}
-				if !adv {
-					probs = append(probs, "the offset does not advance by the batch width")
-				}
-			} else {
-				nRest++
-				okRest := false
-				for _, dc := range cs {
-					// "counter > 0" in whichever form: > 0, != 0, >= 1, or the negations with exchanged branches
-					if _, cy, rel, okc := dc.Cmp(); okc {
-						if k, isK := an.ConstOf(cy); isK && ((k.Sign() == 0 && (rel == token.GTR || rel == token.NEQ)) || (k.Int64() == 1 && rel == token.GEQ)) {
-							okRest = true
-						}
-					}
-				}
-				if !okRest {
-					probs = append(probs, "the remaining records are not handed over whenever the counter is positive")
-				}
-			}
-		}
-	}
-	if nFull != 1 || nRest != 1 {
-		probs = append(probs, fmt.Sprintf("%d full-batch and %d remainder hand-overs (one each expected)", nFull, nRest))
-	}
-	sort.Strings(probs)
-	r.Check(len(probs) == 0, rule, "spent-records-all-deleted", p.Pos(fn.Pos()), "every spent record is in exactly one delete batch (full batches at counter = width-1, remainder when counter > 0)", strings.Join(probs, "; "))
+	batchTiling(r, p, rule, fn, 2)
 }
 
 // c04TrustPerTx: whether a transaction's scripts may be skipped ("already verified for the memory pool") is
@@ -787,8 +730,7 @@ func c04DeleteBatches(r *core.Run, p *core.Program) {
 // transaction. A flag that is carried from one iteration to the next lets one recognised transaction switch
 // off script verification for every later transaction of the block. Likewise the "wait for verifiers" flag of
 // the early-return path only ever becomes true.
-func c04TrustPerTx(r *core.Run, p *core.Program, ct *ssa.Function) {
-	const rule = "R-C04-scripts"
+func c04TrustPerTx(r *core.Run, p *core.Program, ct *ssa.Function, rule string) {
 	// the spawn sites of VerifyTxScript
 	var conds []*ssa.If
 	for _, b := range ct.Blocks {
